@@ -92,11 +92,15 @@ class Editor(Party):
                 s["foreign"] = r.randrange(0, 1000)
             else:
                 s["k"] = r.randrange(0, 1000)
+                if r.random() < c.get("own_id_p", 0.12):
+                    s["own_id"] = r.randrange(0, 1000)  # the payload is an event that was handed out: it carries its own id
             return s
         if x < 0.6:
             s = {"op": "replace_last", "b": self.b, "ev": self.ev()}
             if r.random() < c.get("reuse_p", 0.0):
                 s["reuse_obj"] = True
+            elif r.random() < c.get("own_id_p", 0.12):
+                s["own_id"] = r.randrange(0, 1000)
             return s
         s = {"op": "delete", "b": self.b}
         y = r.random()
